@@ -1,11 +1,17 @@
 import JunoModel.Common.Proto
 import JunoModel.C15.Model
+import JunoModel.C15.ModelRange
+import JunoModel.C15.ModelBuf
 /-!
 Line-protocol driver for the C15 model (`lake build c15drv`).
 
-  cfg a            choose the db/memory variant (cbUnlocked), reset
+  cfg a [r]        choose the db/memory variant (a = cbUnlocked; r = batch.DeleteRange recorded as a range,
+                   `mem2Impl` of ModelRange.lean, default 0 = materialised at call time, `memImpl`), reset
   reset            fresh worlds
   ub P | hasprefix K P
+  newbuf | bufput B K V | bufdel B K | bufget B K F | bufflush B | bufwrite B | bufclose B | bufother B
+                   db.BufferBatch around indexed batch B (ModelBuf.lean); same answer format as <op>
+  psize P U        CalculatePrefixSize(P, U): `n:<count>:<bytes>` per model
   <op>             one storage operation (see harness/cmd/c15/ops.go); answer:
                    `<Mem model> | <Peb model> | <Spec> | <d><m><f>` with d = step is inside the documented
                    contract, m = db/memory not on its re-entrancy defect, f = `f5Free` after the step
@@ -14,11 +20,15 @@ open Juno.Proto Juno.C15
 
 structure St where
   cfg : MemCfg
-  mem : World MBatch MIter
-  peb : World PBatch PIter
-  spec : World SBatch SIter
+  /-- which transcription of the db/memory batch answers in the first column -/
+  rangeLog : Bool
+  mem : BWorld MBatch MIter
+  mem2 : BWorld M2Batch MIter
+  peb : BWorld PBatch PIter
+  spec : BWorld SBatch SIter
 
-def St.init (cfg : MemCfg) : St := ⟨cfg, World.init, World.init, World.init⟩
+def St.init (cfg : MemCfg) (rangeLog : Bool := false) : St :=
+  ⟨cfg, rangeLog, BWorld.init, BWorld.init, BWorld.init, BWorld.init⟩
 
 def showKV (x : Key × Val) : String := bytesToHex x.1 ++ "=" ++ bytesToHex x.2
 
@@ -102,6 +112,37 @@ def op? : List String → Option Op
   | ["close"] => some .close
   | _ => none
 
+def xop? : List String → Option XOp
+  | ["newbuf"] => some .newBuf
+  | ["bufput", b, k, v] => do pure (.bufPut (← b.toNat?) (← hexToBytes? k) (← hexToBytes? v))
+  | ["bufdel", b, k] => do pure (.bufDel (← b.toNat?) (← hexToBytes? k))
+  | ["bufget", b, k, f] => do pure (.bufGet (← b.toNat?) (← hexToBytes? k) (← bool? f))
+  | ["bufflush", b] => do pure (.bufFlush (← b.toNat?))
+  | ["bufwrite", b] => do pure (.bufWrite (← b.toNat?))
+  | ["bufclose", b] => do pure (.bufClose (← b.toNat?))
+  | ["bufother", b] => do pure (.bufOther (← b.toNat?))
+  | ws => (op? ws).map .base
+
+/-- the contract predicate of a `BufferBatch` call is that of the call it makes on the wrapped batch -/
+def xdocumented (w : World SBatch SIter) : XOp → Bool
+  | .base op => documented w op
+  | .newBuf => documented w (.newBatch true)
+  | .bufPut b k v => documented w (.bput b k v)
+  | .bufDel b k => documented w (.bdel b k)
+  | .bufGet b k f => documented w (.get (.batch b) k f)
+  | .bufWrite b => documented w (.bwrite b)
+  | .bufClose b => documented w (.bclose b)
+  | .bufFlush _ | .bufOther _ => true
+
+def xmemOK (c : MemCfg) : XOp → Bool
+  | .base op => memOK c op
+  | _ => true
+
+def showSize {B I : Type} (M : Impl B I) (w : World B I) (p : Key) (u : Bool) : String :=
+  match w.db with
+  | none => "err:closed"
+  | some d => let r := prefixSize M d p u; "n:" ++ toString r.1 ++ ":" ++ toString r.2
+
 def stepLine (s : St) (line : String) : St × String :=
   match words line with
   | ["ub", p] =>
@@ -112,23 +153,34 @@ def stepLine (s : St) (line : String) : St × String :=
     match hexToBytes? k, hexToBytes? p with
     | some k, some p => (s, toString (hasPrefix k p))
     | _, _ => (s, "bad-op")
-  | ["reset"] => (St.init s.cfg, "ok")
+  | ["reset"] => (St.init s.cfg s.rangeLog, "ok")
   | ["cfg", a] =>
     match bool? a with
     | some a => (St.init ⟨a⟩, "ok")
     | none => (s, "bad-op")
+  | ["cfg", a, r] =>
+    match bool? a, bool? r with
+    | some a, some r => (St.init ⟨a⟩ r, "ok")
+    | _, _ => (s, "bad-op")
+  | ["psize", p, u] =>
+    match hexToBytes? p, bool? u with
+    | some p, some u =>
+      (s, (if s.rangeLog then showSize (mem2Impl s.cfg) s.mem2.w p u else showSize (memImpl s.cfg) s.mem.w p u) ++ " | " ++
+        showSize pebImpl s.peb.w p u ++ " | " ++ showSize specImpl s.spec.w p u ++ " | 111")
+    | _, _ => (s, "bad-op")
   | ws =>
-    match op? ws with
+    match xop? ws with
     | none => (s, "bad-op")
     | some op =>
-      let d := documented s.spec op
-      let m := memOK s.cfg op
-      let rm := step (memImpl s.cfg) s.mem op
-      let rp := step pebImpl s.peb op
-      let rs := step specImpl s.spec op
-      let f := f5Free rs.1
+      let d := xdocumented s.spec.w op
+      let m := xmemOK s.cfg op
+      let rm := xstep (memImpl s.cfg) s.mem op
+      let rm2 := xstep (mem2Impl s.cfg) s.mem2 op
+      let rp := xstep pebImpl s.peb op
+      let rs := xstep specImpl s.spec op
+      let f := f5Free rs.1.w
       let b := fun (x : Bool) => if x then "1" else "0"
-      ({ s with mem := rm.1, peb := rp.1, spec := rs.1 },
-        showOut rm.2 ++ " | " ++ showOut rp.2 ++ " | " ++ showOut rs.2 ++ " | " ++ b d ++ b m ++ b f)
+      ({ s with mem := rm.1, mem2 := rm2.1, peb := rp.1, spec := rs.1 },
+        showOut (if s.rangeLog then rm2.2 else rm.2) ++ " | " ++ showOut rp.2 ++ " | " ++ showOut rs.2 ++ " | " ++ b d ++ b m ++ b f)
 
 def main : IO Unit := loop stepLine (St.init ⟨false⟩)
